@@ -545,6 +545,20 @@ def where(cond, a, b):
                                         to_real(Bv._elem(*i)) if Bv is not None else bt), "f")
 
 
+def maximum(a, b):
+    if not anysym(a, b):
+        return _np.maximum(a, b)
+    A = _arr(a)
+    return A._ew(b, lambda x, y: z3.If(x >= y, x, y))
+
+
+def minimum(a, b):
+    if not anysym(a, b):
+        return _np.minimum(a, b)
+    A = _arr(a)
+    return A._ew(b, lambda x, y: z3.If(x <= y, x, y))
+
+
 def sign(x):
     if not _sym(x):
         return _np.sign(x)
